@@ -1,13 +1,15 @@
 #!/usr/bin/env python3
-"""C18 (family order): `-64` / `-6 -4` must prefer IPv6 over IPv4 (README: "order of precedence can be set by using either -46 or -64").
-Before the fix process_commandline produced [4, 6] for every spelling with both options.
-run: cd /repo && /venv/bin/python /verif/demos/demo_c18c.py   (exit 1 when the defect is present)"""
+"""C18: a target written as host:port (or [IPv6]:port) on the command line together with -p must be dialled at that host and port; -p is only the default.
+Run with PYTHONPATH=<tree>/src.  Exit 0 = behaves as documented, 1 = the target is not split (the literal 'host:port' would be resolved as a name)."""
 import sys
 from ssh_audit.ssh_audit import process_commandline
 from ssh_audit.outputbuffer import OutputBuffer
-bad = 0
-for args, want in ((['-46', 'h'], [4, 6]), (['-64', 'h'], [6, 4]), (['-6', '-4', 'h'], [6, 4]), (['--ipv6', '--ipv4', 'h'], [6, 4]), (['-6', 'h'], [6]), (['-4', 'h'], [4]), (['h'], [])):
-    got = process_commandline(OutputBuffer(), args).ip_version_preference
-    print(args, got, 'ok' if got == want else 'WRONG (want %s)' % want)
-    bad += got != want
+bad = []
+for args, want in ((['-p', '2222', 'localhost:2200'], ('localhost', 2200)), (['-p', '2222', '[::1]:2200'], ('::1', 2200)), (['-p', '2222', '[::1]'], ('::1', 2222)),
+                   (['-p', '2222', 'localhost'], ('localhost', 2222)), (['-p', '2222', '2001:db8::1'], ('2001:db8::1', 2222)), (['localhost:2200'], ('localhost', 2200)), (['localhost'], ('localhost', 22))):
+    conf = process_commandline(OutputBuffer(), args)
+    got = (conf.host, conf.port)
+    print('%-32s -> %r%s' % (' '.join(args), got, '' if got == want else '   EXPECTED %r' % (want,)))
+    if got != want:
+        bad.append(args)
 sys.exit(1 if bad else 0)
